@@ -153,6 +153,12 @@ pub const MSG_PORT_DATA_FLAG_IDS: u8 = 0b0000_1000;
 /// Port data, limited by the maximum chunk size, may be append to a message.
 pub const MAX_MSG_LENGTH: usize = 16;
 
+/// Length of the hello message.
+///
+/// It consists of the message code, the magic identifier, the protocol version and
+/// the exchanged configuration.
+pub const HELLO_MSG_LENGTH: usize = 1 + MAGIC.len() + 1 + 18;
+
 impl MultiplexMsg {
     pub(crate) fn write(&self, mut writer: impl io::Write) -> Result<(), io::Error> {
         match self {
